@@ -287,6 +287,34 @@ def check_r113(fx, rep):
         rep.oblige(not manual, "R11.3", "data-eq-derived", F.loc(svd["span"]), "the expression enum has a hand-written equality/hash")
 
 
+def constant_readers(fx, in_scope):
+    """function -> sorted, comma-joined set of ways it reads the numeric value of a constant (conversion to a native integer,
+    byte / bit view, comparison), for the functions selected by in_scope(def_path)."""
+    KW = "vm::value::known::KnownWord"
+    found = {}
+    for b in fx.fn_bodies():
+        if not b.get("hir") or not in_scope(b["def"]):
+            continue
+        readers = set()
+        for c, ps in F.calls(b["hir"]["value"]):
+            name = F.strip_generics(F.callee(c) or F.callee_def(c) or "")
+            argtys = [(a.get("ty") or "") for a in F.call_args(c)]
+            if not any(KW in t or "ethnum::U256" in t or "ethnum::I256" in t for t in argtys):
+                continue
+            last = name.split("::")[-1]
+            reader = name.startswith(KW + "::") or name.startswith("ethnum::") or name.startswith("vm::value::known::from") or ("KnownWord as std::convert::Into<" in name) or ("as std::convert::From<" in name and "KnownWord" in name) or ("TryFrom<" in name)
+            if not reader or last in ("clone", "from_le", "from_be_bytes", "zero", "new", "fmt", "hash", "eq", "ne"):
+                continue
+            rt = c.get("ty") or ""
+            readers.add(last + ("->" + rt if rt in ("usize", "u32", "u64", "u8", "bool") else ""))
+        for n, ps in F.walk(b["hir"]["value"]):
+            if n.get("k") == "Binary" and n["op"] in ("Eq", "Ne", "Lt", "Le", "Gt", "Ge") and any(KW in (n[x].get("ty") or "") or "ethnum::U256" in (n[x].get("ty") or "") for x in ("l", "r")):
+                readers.add("compare")
+        if readers:
+            found[b["def"]] = ",".join(sorted(readers))
+    return found
+
+
 def check(fx, rep, tier):
     check_r111(fx, rep)
     check_r112(fx, rep)
@@ -310,29 +338,8 @@ def check(fx, rep, tier):
                 rep.oblige(ok, "R11.4", f"row-index:{F.strip_generics(b['def'])}", F.loc(n["span"]), "the layout row index is not the constant under the StorageSlot: slot identity would depend on something positional", sample={"rule": "R11.4", "index": "KnownData under StorageSlot"})
     rep.floor("R11.4", adds, 2, "calls of StorageLayout::add")
     # ---------------------------------------------------------------- R11.5 slot-number independence
-    KW = "vm::value::known::KnownWord"
     rows5 = tables.Keyed("const_inspections.tsv", fx)
-    found5 = {}
-    for b in fx.fn_bodies():
-        if not b.get("hir") or not ("tc::lift" in b["def"] or "tc::rule" in b["def"]):
-            continue
-        readers = set()
-        for c, ps in F.calls(b["hir"]["value"]):
-            name = F.strip_generics(F.callee(c) or F.callee_def(c) or "")
-            argtys = [(a.get("ty") or "") for a in F.call_args(c)]
-            if not any(KW in t or "ethnum::U256" in t or "ethnum::I256" in t for t in argtys):
-                continue
-            last = name.split("::")[-1]
-            reader = name.startswith(KW + "::") or name.startswith("ethnum::") or name.startswith("vm::value::known::from") or ("KnownWord as std::convert::Into<" in name) or ("as std::convert::From<" in name and "KnownWord" in name) or ("TryFrom<" in name)
-            if not reader or last in ("clone", "from_le", "from_be_bytes", "zero", "new", "fmt", "hash", "eq", "ne"):
-                continue
-            rt = c.get("ty") or ""
-            readers.add(last + ("->" + rt if rt in ("usize", "u32", "u64", "u8", "bool") else ""))
-        for n, ps in F.walk(b["hir"]["value"]):
-            if n.get("k") == "Binary" and n["op"] in ("Eq", "Ne", "Lt", "Le", "Gt", "Ge") and any(KW in (n[x].get("ty") or "") or "ethnum::U256" in (n[x].get("ty") or "") for x in ("l", "r")):
-                readers.add("compare")
-        if readers:
-            found5[b["def"]] = ",".join(sorted(readers))
+    found5 = constant_readers(fx, lambda d: "tc::lift" in d or "tc::rule" in d)
     rep.floor("R11.5", len(found5), 8, "lifting-pass / inference-rule functions that read the numeric value of a constant")
     for name, readers in sorted(found5.items()):
         row = rows5.get(name)
